@@ -225,7 +225,7 @@ func (fr *Frame) execInstr(in ssa.Instruction, st *State, r string) {
 		for _, res := range x.Results {
 			vals = append(vals, fr.val(res)...)
 		}
-		fr.rets = append(fr.rets, retInfo{reach: r, vals: vals, st: st.clone(), pos: x.Pos()})
+		fr.rets = append(fr.rets, retInfo{reach: r, vals: vals, st: st.clone(), pos: x.Pos(), blk: x.Block()})
 	case *ssa.Panic:
 		msg := "explicit panic"
 		if mi, ok := x.X.(*ssa.MakeInterface); ok {
